@@ -1,4 +1,5 @@
 import Qentem.Proofs.StrToNumPosUlp
+import Qentem.Proofs.StrToNumRatClose
 /-! C09: the positive-exponent path on a **truncated mantissa with an integer exact value** — the scan keeps the first
 19 or 20 digits `v ≥ 10^18` and counts the ignored integer digits into the exponent `x`; the exact value `Vt` is an
 integer with `v·10^x ≤ Vt < (v+1)·10^x`. The result is within one ulp of the correctly rounded `Vt`: the pipeline is
@@ -100,5 +101,178 @@ theorem powerOfPositiveTen_close_trunc_int (v x Vt : Nat) (hv18 : 10 ^ 18 ≤ v)
   have hVt0 : 0 < Vt := Nat.lt_of_lt_of_le (Nat.mul_pos hn0 (by rw [← h10]; exact Nat.pow_pos (by decide))) ht1
   rw [nearestMag_nat _ hVt0]
   exact cap_close _ _ r2 r1
+
+/-- the big integer of the positive path for a mantissa `v ≥ 10^17`: more than 53 bits, never above `v·10^x`, short
+of it by less than 1/16 of the 54-bit unit `u = 2^(bit−53)·2^s` -/
+theorem posScale_trunc_facts (v x : Nat) (hv17 : 10 ^ 17 ≤ v) (hv : v < 2 ^ 64) (hx : x ≤ 2 ^ 20) :
+    ∃ b s, posScale v x = some (b, s) ∧ 0 < b ∧ b < 2 ^ 256 ∧ s + 1 < 2 ^ 32 ∧ 54 < Nat.log2 b ∧
+      b * 2 ^ s ≤ v * 10 ^ x ∧ 16 * (v * 10 ^ x) < 16 * (b * 2 ^ s) + 2 ^ (Nat.log2 b - 53) * 2 ^ s := by
+  have hn0 : 0 < v := Nat.lt_of_lt_of_le (Nat.pow_pos (by decide)) hv17
+  obtain ⟨p27, hp27e, hcases⟩ := posScale_closed v x hv
+  have hp27 : p27 = 5 ^ 27 := by
+    have := pow5_get 27 (by decide); rw [hp27e] at this; exact Option.some.inj this
+  have hp27pos : 0 < p27 := by rw [hp27]; decide
+  have hp27lt : p27 < 2 ^ 63 := by rw [hp27]; decide
+  have hinit : PosInv v v 0 := by
+    refine ⟨by simp, ?_, Or.inl rfl⟩
+    rw [Nat.mul_zero, Nat.pow_zero, Nat.mul_one, Nat.add_zero, Nat.mul_comm]
+  obtain ⟨j, hinv, _, hjn, hs⟩ := posIter_inv p27 hp27pos hp27lt (x / 27) v x v 0 hinit
+    (by have := Nat.div_le_self x 27; omega) (by have := Nat.div_le_self x 27; omega)
+    (Nat.lt_of_lt_of_le hv (by decide))
+  obtain ⟨_, hlt192⟩ := posLoop_closed p27 hp27lt (x / 27) v x (Nat.lt_of_lt_of_le hv (by decide))
+  have hj20 : j ≤ 2 ^ 20 := by have := Nat.div_le_self x 27; omega
+  have hV : v * 10 ^ x = v * 5 ^ x * 2 ^ x := by
+    rw [show (10 : Nat) = 5 * 2 by decide, Nat.mul_pow]; ring
+  have hx27 : x = 27 * (x / 27) + x % 27 := (Nat.div_add_mod x 27).symm
+  have final : ∃ b s, posScale v x = some (b, s) ∧ b < 2 ^ 256 ∧ s = x + 64 * j ∧ PosInv b (v * 5 ^ x) j := by
+    rcases hcases with ⟨h0, hps⟩ | ⟨h0, pj, hpje, hps, hlt⟩
+    · refine ⟨_, _, hps, Nat.lt_of_lt_of_le hlt192 (by decide), by simpa using hs, ?_⟩
+      have : v * p27 ^ (x / 27) = v * 5 ^ x := by
+        rw [hp27, ← Nat.pow_mul]; congr 2; omega
+      rw [← this]; exact hinv
+    · have hpj : pj = 5 ^ (x % 27) := by
+        have := pow5_get (x % 27) (by omega); rw [hpje] at this; exact Option.some.inj this
+      refine ⟨_, _, hps, Nat.lt_of_lt_of_le hlt (by decide), by simpa using hs, ?_⟩
+      have : v * p27 ^ (x / 27) * pj = v * 5 ^ x := by
+        rw [hp27, hpj, ← Nat.pow_mul, Nat.mul_assoc, ← Nat.pow_add]; congr 2; omega
+      rw [← this]
+      exact hinv.mul pj (by rw [hpj]; exact Nat.pow_pos (by decide))
+  obtain ⟨b, s, hps, hb256, hsx, hfin⟩ := final
+  have hNpos : 0 < v * 5 ^ x := Nat.mul_pos hn0 (Nat.pow_pos (by decide))
+  obtain ⟨hb, k1, k2, k3, k4⟩ := inv_to_close b (v * 5 ^ x) j x hNpos hfin hj20
+  have hb0 : b ≠ 0 := by omega
+  obtain ⟨hlo, hhi⟩ := log2_bounds b hb0
+  -- the big integer has more than 53 bits
+  have hbit : 52 < Nat.log2 b := by
+    by_contra hc
+    have hle : Nat.log2 b ≤ 52 := by omega
+    have hb53 : b < 2 ^ 53 := Nat.lt_of_lt_of_le hhi (Nat.pow_le_pow_right (by decide) (by omega))
+    obtain ⟨h1, h2, h3⟩ := hfin
+    have hj0 : j = 0 := by
+      rcases h3 with h | h
+      · exact h
+      · exfalso
+        have : (2 : Nat) ^ 53 ≤ 2 ^ 128 := by decide
+        omega
+    subst hj0
+    have heq := k2 hle
+    rw [Nat.mul_zero, Nat.add_zero] at heq
+    have hNb : v * 5 ^ x = b := Nat.eq_of_mul_eq_mul_right (Nat.pow_pos (by decide)) heq
+    have h5 : 1 ≤ 5 ^ x := Nat.pow_pos (by decide)
+    have : v ≤ v * 5 ^ x := Nat.le_mul_of_pos_right _ h5
+    have : (2 : Nat) ^ 53 ≤ 10 ^ 17 := by decide
+    omega
+  have hk4 := k4 hbit
+  have hbit55 : 54 < Nat.log2 b := by
+    by_contra hc
+    have hb55 : b < 2 ^ 55 := Nat.lt_of_lt_of_le hhi (Nat.pow_le_pow_right (by decide) (by omega))
+    obtain ⟨h1, h2, h3⟩ := hfin
+    have hj0 : j = 0 := by
+      rcases h3 with h | h
+      · exact h
+      · exfalso
+        have : (2 : Nat) ^ 55 ≤ 2 ^ 128 := by decide
+        omega
+    subst hj0
+    have hk3 := k3 hbit
+    rw [Nat.mul_zero, Nat.add_zero, ← Nat.add_mul] at hk3
+    have hlt : v * 5 ^ x < b + 2 ^ (Nat.log2 b - 53) := Nat.lt_of_mul_lt_mul_right hk3
+    have h5 : 1 ≤ 5 ^ x := Nat.pow_pos (by decide)
+    have hvle : v ≤ v * 5 ^ x := Nat.le_mul_of_pos_right _ h5
+    have hsm : 2 ^ (Nat.log2 b - 53) ≤ 2 ^ 1 := Nat.pow_le_pow_right (by decide) (by omega)
+    have : (2 : Nat) ^ 55 + 2 ^ 1 ≤ 10 ^ 17 := by decide
+    omega
+  rw [← hV] at k1 hk4
+  exact ⟨b, s, hps, hb, hb256, by omega, hbit55, by rw [hsx]; exact k1, by rw [hsx]; exact hk4⟩
+
+theorem codeRawNeg_zero (b s : Nat) (hb : b ≠ 0) (hbit : 52 < Nat.log2 b) : codeRawNeg (b * 2 ^ s) 0 = codeRaw b s := by
+  unfold codeRawNeg codeRaw
+  rw [log2_mul_pow b s hb, if_neg (by omega)]
+  have hm : max (Nat.log2 b + s) (0 - 1022) = Nat.log2 b + s := by omega
+  rw [hm, show Nat.log2 b + s - 53 = (Nat.log2 b - 53) + s by omega, Nat.pow_add, halfUp_scale _ _ _ (Nat.pow_pos (by decide))]
+  congr 1
+
+/-- **the positive path on a truncated mantissa with a rational exact value** `N/D`, `v·10^x ≤ N/D < (v+1)·10^x`,
+`v ≥ 10^17`: within one ulp of the correctly rounded `N/D` (pipeline short by `< u/16`, truncation `< 7u/16`, together
+below the quarter ulp `u/2` the rounding lemma `raw_close_rat` needs; `16·(2^54+1) ≤ 7·10^17`) -/
+theorem powerOfPositiveTen_close_trunc_rat (v x N D : Nat) (hv17 : 10 ^ 17 ≤ v) (hv : v < 2 ^ 64) (hx : x ≤ 2 ^ 20)
+    (hD : 0 < D) (ht1 : v * 10 ^ x * D ≤ N) (ht2 : N < (v + 1) * 10 ^ x * D) :
+    ∃ p, powerOfPositiveTen v x = some p ∧ ulpDist p (nearestMag N D) ≤ 1 := by
+  obtain ⟨b, s, hps, hb, hb256, hs32, hbit, k1, k4⟩ := posScale_trunc_facts v x hv17 hv hx
+  have hb0 : b ≠ 0 := by omega
+  obtain ⟨hlo, hhi⟩ := log2_bounds b hb0
+  have hn0 : 0 < v := Nat.lt_of_lt_of_le (Nat.pow_pos (by decide)) hv17
+  refine ⟨cap (codeRaw b s), by simp [powerOfPositiveTen, hps, posFinish_eq b s hb hb256 hs32], ?_⟩
+  rw [← codeRawNeg_zero b s hb0 (by omega)]
+  have hlogB : Nat.log2 (b * 2 ^ s) = Nat.log2 b + s := log2_mul_pow b s hb0
+  -- the unit u = 2·G, G the quarter ulp of B = b·2^s
+  have hG : 2 ^ (Nat.log2 b - 53) * 2 ^ s = 2 * 2 ^ (Nat.log2 (b * 2 ^ s) - 54) := by
+    rw [hlogB, ← Nat.pow_add, show Nat.log2 b - 53 + s = (Nat.log2 b + s - 54) + 1 by omega, Nat.pow_succ]; ring
+  rw [hG] at k4
+  have hbu : b * 2 ^ s < 2 ^ 55 * 2 ^ (Nat.log2 (b * 2 ^ s) - 54) := by
+    have h := (log2_bounds (b * 2 ^ s) (Nat.mul_ne_zero hb0 (by have := Nat.pow_pos (n := s) (by decide : 0 < 2); omega))).2
+    rw [← Nat.pow_add, show 55 + (Nat.log2 (b * 2 ^ s) - 54) = Nat.log2 (b * 2 ^ s) + 1 by omega]; exact h
+  have hB54 : 2 ^ 54 ≤ b * 2 ^ s := by
+    have h := (log2_bounds (b * 2 ^ s) (Nat.mul_ne_zero hb0 (by have := Nat.pow_pos (n := s) (by decide : 0 < 2); omega))).1
+    exact Nat.le_trans (Nat.pow_le_pow_right (by decide) (by omega)) h
+  have hlog54 : 54 ≤ Nat.log2 (b * 2 ^ s) := by omega
+  generalize hGd : 2 ^ (Nat.log2 (b * 2 ^ s) - 54) = G at *
+  generalize hBd : b * 2 ^ s = B at *
+  generalize h10 : 10 ^ x = T at *
+  -- truncation: 16·T < 14·G  (T = 10^x < 0.18·u)
+  have htr : 16 * T < 14 * G := by
+    have h1 : 10 ^ 17 * T ≤ v * T := Nat.mul_le_mul_right _ hv17
+    have h3 : 10 ^ 17 * (16 * T) < 10 ^ 17 * (14 * G) := by
+      calc 10 ^ 17 * (16 * T) = 16 * (10 ^ 17 * T) := by ring
+        _ ≤ 16 * (v * T) := Nat.mul_le_mul_left _ h1
+        _ < 16 * B + 2 * G := k4
+        _ ≤ 16 * (2 ^ 55 * G) + 2 * G := by omega
+        _ = (16 * 2 ^ 55 + 2) * G := by ring
+        _ ≤ 14 * 10 ^ 17 * G := Nat.mul_le_mul_right _ (by decide)
+        _ = 10 ^ 17 * (14 * G) := by ring
+    exact Nat.lt_of_mul_lt_mul_left h3
+  have q1 : B * D ≤ N + G * D := by
+    have : B * D ≤ v * T * D := Nat.mul_le_mul_right _ k1
+    omega
+  have q2 : N ≤ B * D + G * D := by
+    have h1 : 16 * N ≤ 16 * ((v + 1) * T * D) := Nat.mul_le_mul_left _ (Nat.le_of_lt ht2)
+    have h2 : 16 * ((v + 1) * T * D) = (16 * (v * T) + 16 * T) * D := by ring
+    have h3 : (16 * (v * T) + 16 * T) * D ≤ (16 * B + 2 * G + 14 * G) * D :=
+      Nat.mul_le_mul_right _ (by omega)
+    have h4 : (16 * B + 2 * G + 14 * G) * D = 16 * (B * D + G * D) := by ring
+    have : 16 * N ≤ 16 * (B * D + G * D) := by omega
+    exact Nat.le_of_mul_le_mul_left this (by decide)
+  -- L = ⌊log₂(N/D)⌋
+  have hG0 : 0 < G := by rw [← hGd]; exact Nat.pow_pos (by decide)
+  have hNlow : 2 ^ 54 * D ≤ N := by
+    have : B * D ≤ N := by
+      have : B * D ≤ v * T * D := Nat.mul_le_mul_right _ k1
+      omega
+    exact Nat.le_trans (Nat.mul_le_mul_right _ hB54) this
+  have hq0 : N / D ≠ 0 := by
+    intro h
+    rcases (Nat.div_eq_zero_iff).1 h with h | h
+    · omega
+    · have : 1 * D ≤ 2 ^ 54 * D := Nat.mul_le_mul_right _ (by decide)
+      omega
+  obtain ⟨l1, l2⟩ := log2_bounds (N / D) hq0
+  generalize hL : Nat.log2 (N / D) = L at *
+  have hL1 : D * 2 ^ L ≤ N := Nat.le_trans (Nat.mul_le_mul_left _ l1) (Nat.mul_div_le _ _)
+  have hL2 : N < D * 2 ^ (L + 1) := by
+    have := (Nat.div_lt_iff_lt_mul hD).1 l2
+    rw [Nat.mul_comm]; exact this
+  have hL52 : 52 ≤ L := by
+    by_contra hc
+    have : 2 ^ (L + 1) ≤ 2 ^ 54 := Nat.pow_le_pow_right (by decide) (by omega)
+    have : D * 2 ^ (L + 1) ≤ D * 2 ^ 54 := Nat.mul_le_mul_left _ this
+    rw [Nat.mul_comm D (2 ^ 54)] at this
+    omega
+  have hN0 : 0 < N := Nat.lt_of_lt_of_le (Nat.mul_pos (Nat.pow_pos (by decide)) hD) hNlow
+  obtain ⟨c1, c2⟩ := raw_close_rat B 0 N D L hD hB54 (by rw [hGd]; exact q1) (by rw [hGd]; exact q2) hL1 hL2
+  have hspec : nearestMag N D = cap (ratRaw N D 0 L) := by
+    have := nearestMag_bunits N D 0 0 L hN0 hD (Nat.le_refl _) hL52 (by simpa using hL1) (by simpa using hL2)
+    simpa using this
+  rw [hspec]
+  exact cap_close _ _ c2 c1
 
 end Qentem.StrToNum
